@@ -186,7 +186,7 @@ class _RequestsShim(object):
 
 
 # ----------------------------------------------------------------- fake connection
-SESSION_HANG_S = 90
+SESSION_HANG_S = 60
 _SESSION_NO = itertools.count(1)
 
 
@@ -405,9 +405,20 @@ class Rig(object):
                 # it never gave back, thread-local state - meets the next session from another thread)
                 th = threading.Thread(target=body, name="verif-session-%d" % next(_SESSION_NO), daemon=True)
                 th.start()
-                th.join(SESSION_HANG_S)
+                # hung = alive and NO progress (no byte received, nothing sent, no iteration finished) for
+                # SESSION_HANG_S seconds - a slow machine makes progress slowly, a blocked thread makes none
+                mark, since = None, time.time()
+                while True:
+                    th.join(2)
+                    if not th.is_alive():
+                        break
+                    now_mark = (len(conn.recv_sizes), len(conn.out), len(its))
+                    if now_mark != mark:
+                        mark, since = now_mark, time.time()
+                    elif time.time() - since > SESSION_HANG_S:
+                        break
                 if th.is_alive():
-                    escaped = "SessionHung: the session thread did not finish within %d s (frames served so far: %d)" \
+                    escaped = "SessionHung: the session thread made no progress for %d s (frames answered so far: %d)" \
                         % (SESSION_HANG_S, len([i for i in its if i.get("sent")]))
                     # whatever it waits for is gone for every later session of this rig
                     self.poisoned = "SessionHung: an earlier session of this server still blocks"
